@@ -353,11 +353,11 @@ OptionsOk(k, o, fit) ==
 Norm(o) ==
   IF o.n = "lea" /\ Len(o.ops) = 2 /\ o.ops[1].t = "r" /\ o.ops[1].c = "gpq" /\ o.ops[2].t = "m" /\ o.ops[2].bt = "" /\ o.ops[2].it = ""
      /\ HighAll(o.ops[2].d, 4, 0) /\ o.ops[2].d[4] >= 128 /\ ~(72 \in {o.b[j] : j \in 1..Len(o.b)} \/ 76 \in {o.b[j] : j \in 1..Len(o.b)})
-  THEN [o EXCEPT !.ops[1].c = "gpd"]
+  THEN [o EXCEPT !.ops[1].c = "gpd", !.ops[2].d = SExt(Low(o.ops[2].d, 4), 8)]
   ELSE IF o.n = "lea" /\ o.m = 64 /\ Len(o.ops) = 2 /\ o.ops[1].t = "r" /\ o.ops[1].c \in {"gpw", "gpd"} /\ o.ops[2].t = "m" /\ o.ops[2].bt = "" /\ o.ops[2].it = ""
           /\ HighAll(o.ops[2].d, 4, 0) /\ o.ops[2].d[4] >= 128
   THEN [o EXCEPT !.ops[2].d = SExt(Low(o.ops[2].d, 4), 8)]          \* destination <= 32 bits: sign- and zero-extended address give the same result
-  ELSE IF o.n = "xchg" /\ o.m = 64 /\ o.b = <<144>> /\ Len(o.ops) = 2 /\ o.ops[1] = o.ops[2] /\ o.ops[1].t = "r" /\ o.ops[1].c = "gpq" /\ o.ops[1].id = 0
+  ELSE IF o.n = "xchg" /\ o.m = 64 /\ o.b \in {<<144>>, <<64, 144>>} /\ Len(o.ops) = 2 /\ o.ops[1] = o.ops[2] /\ o.ops[1].t = "r" /\ o.ops[1].c = "gpq" /\ o.ops[1].id = 0
   THEN [o EXCEPT !.ops[1].c = "gpd", !.ops[2].c = "gpd"]               \* xchg rax,rax = nop = 90
   ELSE IF o.n \in {"ret", "retf"} /\ Len(o.ops) = 1 /\ o.ops[1].t = "i" /\ HighAll(o.ops[1].v, 0, 0) /\ Len(o.b) = 1
   THEN [o EXCEPT !.ops = <<>>]
